@@ -684,8 +684,48 @@ def _warm(line):
             pass
 
 
-def check_payload(d, p, tables, dec=None, warm=False):
-    """the property text on the real code for one (definition, payload): None or a witness dict"""
+CLAIM_LINE = "2020-01-01-00:00:00.000,6,60928,7,255,8,01,02,03,04,05,06,07,88"
+
+
+def check_payload(d, p, tables, dec=None, warm=False, cfg=None):
+    """the property text on the real code for one (definition, payload): None or a witness dict.
+    cfg: None = a plain decoder; "dump" = a decoder that also dumps what it returns to a file; "netmap" = a decoder
+    that builds the network map and has seen the source's address claim. What the database says about the payload
+    does not depend on these."""
+    if cfg in ("dump", "netmap"):
+        import datetime as _dt
+        import os as _os
+        import tempfile as _tf
+        from nmea2000.decoder import NMEA2000Decoder
+        path = None
+        if cfg == "dump":
+            fd, path = _tf.mkstemp(prefix="c01_dump_", suffix=".jsonl", dir="/tmp")
+            _os.close(fd)
+            _os.unlink(path)
+            dec2 = NMEA2000Decoder(dump_to_file=path)
+        else:
+            dec2 = NMEA2000Decoder(build_network_map=True)
+            dec2.started_at = _dt.datetime(2000, 1, 1)
+            try:
+                dec2.decode_basic_string(CLAIM_LINE, True)
+            except Exception:  # noqa: BLE001
+                pass
+        try:
+            w = check_payload(d, p, tables, dec=dec2, warm=warm)
+        finally:
+            try:
+                dec2.close()
+            except Exception:  # noqa: BLE001
+                pass
+            if path and _os.path.exists(path):
+                _os.unlink(path)
+        if w:
+            w["cfg"] = cfg
+            if "offset-attribute-ignored" not in w["key"]:      # (a listed finding: the same defect under any configuration)
+                w["key"] += ":" + cfg
+            w["what"] += {"dump": " (decoder with dump_to_file set)",
+                          "netmap": " (decoder with build_network_map=True that has seen the source's address claim)"}[cfg]
+        return w
     from nmea2000.decoder import NMEA2000Decoder
     dec = dec or NMEA2000Decoder()
     # which definition the database selects for this payload (C08's rule)
@@ -716,6 +756,11 @@ def check_payload(d, p, tables, dec=None, warm=False):
         return None
     if m is None:
         return dict(base, key="decode:none", what=f"PGN {d['PGN']} {d['Id']} payload {p:#x}: decode returned None")
+    import datetime as _dtm
+    if m.ttl is not None and not isinstance(m.ttl, _dtm.timedelta):
+        return dict(base, key="decode:message-metadata",
+                    what=f"PGN {d['PGN']} payload {p:#x}: the message's transmission interval is {m.ttl!r} ({type(m.ttl).__name__}), "
+                         f"database TransmissionInterval {d.get('TransmissionInterval')} ms")
     ttl = None if m.ttl is None else round(m.ttl.total_seconds() * 1000)
     want = (d["PGN"], d["Id"], d["Description"], d.get("TransmissionInterval"))
     if (m.PGN, m.id, m.description, ttl) != want:
@@ -767,6 +812,19 @@ def search(ctx):
                 seen.add(w["key"])
                 w["class"] = label
                 out.append(w)
+        # the same reading through differently configured decoders (dumping on; network map on, claim seen): the
+        # all-zero / all-ones backgrounds (not-available in every field, key fields included) and two more
+        for label, p in pls[:4]:
+            for cfg in ("dump", "netmap"):
+                try:
+                    w = check_payload(d, p, tables, cfg=cfg)
+                except Exception as e:  # noqa: BLE001
+                    w = {"kind": "decode", "pgn": d["PGN"], "id": d["Id"], "payload": p, "key": "oracle:exception:" + cfg,
+                         "what": f"oracle failed on PGN {d['PGN']} {d['Id']} {p:#x} ({cfg}): {e!r}"}
+                if w and w["key"] not in seen:
+                    seen.add(w["key"])
+                    w["class"] = label
+                    out.append(w)
     # DATE / TIME fields under other process time zones (west and east of Greenwich): what the bits say must not depend
     # on the host configuration
     import os as _os
@@ -824,6 +882,6 @@ def replay(ctx, data):
             _time.tzset()
         print("observed:", r["what"] if r else "property holds on this input")
         return r is not None
-    r = check_payload(d, int(w["payload"]), _lookup_tables(), warm=bool(w.get("warm")))
+    r = check_payload(d, int(w["payload"]), _lookup_tables(), warm=bool(w.get("warm")), cfg=w.get("cfg"))
     print("observed:", r["what"] if r else "property holds on this input")
     return r is not None and (r["key"] == w.get("key") or "key" not in w)
